@@ -247,7 +247,14 @@ bool IncSolver::solve() {
 #endif
     satisfy();
     double lastcost = DBL_MAX, cost = bs->cost();
-    while(fabs(lastcost-cost)>0.0001) {
+    // A round of splitting and re-merging can arrive at a different set of
+    // active constraints with the same cost, from which the next round does
+    // improve.  So only stop once a round leaves the cost unchanged without
+    // having split any block.  The number of such extra rounds is bounded
+    // to rule out cycling.
+    unsigned extraRounds = 0;
+    while((fabs(lastcost-cost)>0.0001) ||
+            ((splitCnt > 0) && (extraRounds++ <= m))) {
         satisfy();
         lastcost=cost;
         cost = bs->cost();
